@@ -18,6 +18,8 @@ INERT = {
 
 
 def run(check, pool, Task):
+    from . import validate
+    validate.apply(check, ['box_kernels', 'bounds_kernels', 'rtree'])
     thorough = check.tier == 'thorough'
     allq = ('isna', 'bounds', 'total_bounds', 'intersects_bounds', 'length', 'area')
     check.bounds.update({'arrays': 'inert rows first / last / all rows / a run of consecutive rows, <= 5 rows; every coordinate additionally carries a NaN flag, '
